@@ -8,3 +8,22 @@ package evalfilter
 // not of the compiled program or of a value's printed form.
 //@ func (e *Eval) Dump() (err error)
 //@   maporder listing: the order in which Dump lists the functions is not part of the compiled program or of any value
+
+//@ func (e *Eval) SetContext(ctx context.Context)
+//@   modifies e.context
+//@   ensures @C09 setcontext.def: e.context === ctx
+//@   panics never
+
+// Prepare hands the context set before it to the machine it builds (C09), and optimises unless told
+// otherwise (C20).
+//@ func (e *Eval) Prepare(flags ...[]byte) (err error)
+//@   requires evalOK(e)
+//@   ensures prepare.ok.env: e.environment != nil && e.environment.global != nil && e.environment.functions != nil
+//@   ensures prepare.ok.scopes: scopesOK(e.environment)
+//@   ensures prepare.ok.ctx: e.context != nil
+//@   ensures @C09 prepare.context: err == nil ==> e.machine != nil && e.machine.context === e.context
+//@   panics maybe
+
+//@ func New(script string) (result *Eval)
+//@   ensures new.ok: result != nil && fresh(result) && evalOK(result) && result.Script == script && result.machine == nil
+//@   panics never
